@@ -16,9 +16,9 @@ MODELS = ['number', 'unit', 'sequence', 'phone', 'datetime', 'choice']
 def obligations(tier):
     t = 200 if tier == 'quick' else 1500
     obs = [
-        Ob('O1.1-preprocess', 'xh', 'harness.preproc:h_preprocess', slices=[{'len': 1}] + ([{'len': 2}] if tier == 'thorough' else []), timeout=90 if tier == 'quick' else 1200,
+        Ob('O1.1-preprocess', 'xh', 'harness.preproc:h_preprocess', slices=[{'len': 1}] + ([{'len': 2, 'c0': a, 'c1': b} for a in ('ascii', 'bmp', 'astral') for b in ('ascii', 'bmp', 'astral')] if tier == 'thorough' else []), timeout=90 if tier == 'quick' else 900,
            descr='QueryProcessor.preprocess keeps the length and maps each character to its documented image (symbolic string, every code point)',
-           bounds='|s| = 1 (thorough: 2)', encodes=['recognizers_text.utilities:QueryProcessor.preprocess', 'recognizers_text.utilities:QueryProcessor.lower_keep_length'],
+           bounds='|s| = 1 (thorough: 2, partitioned by the code-point class of each character: ASCII / rest of the BMP / astral)', encodes=['recognizers_text.utilities:QueryProcessor.preprocess', 'recognizers_text.utilities:QueryProcessor.lower_keep_length'],
            engine='CrossHair symbolic execution (symbolic str), z3 per path'),
         Ob('O1.1-audit', 'fn', 'harness.preproc:audit_all_code_points', timeout=t,
            descr='audit (concrete): every code point keeps length 1 inside a string, both case modes',
@@ -62,16 +62,20 @@ def obligations(tier):
            encodes=['recognizers_date_time.date_time.base_merged:BaseMergedExtractor.add_mod', 'recognizers_date_time.date_time.base_merged:BaseMergedExtractor.try_merge_modifier_token',
                     'recognizers_date_time.date_time.base_merged:BaseMergedExtractor.has_token_index']),
         Ob('O1.8-witness', 'fn', 'harness.witness:api_witness', slices=[{'w': 'F2'}], timeout=t, finding='F2', descr='API witness of F2 (empty entity)'),
+        Ob('O1.9-witness-zh', 'fn', 'harness.witness:api_witness', slices=[{'w': 'F37'}], timeout=t, finding='F37', descr='API witness of F37 (zh-cn modifier widening: negative start)'),
     ]
     kinds = ['phone', 'ip', 'email', 'url', 'hashtag', 'mention', 'guid', 'currency', 'dimension', 'number', 'percentage', 'datetime']
     heavy = ('currency', 'datetime', 'phone', 'number')
     cs = []
     for k in kinds:
-        cs += [{'kind': k, 'pad': a} for a in range(9)] if k in heavy else [{'kind': k}]
+        cs += [{'kind': k, 'pad': a} for a in range(10)] if k in heavy else [{'kind': k}]
+    cs += [{'kind': k, 'culture': 'zh-cn'} for k in ('number', 'percentage', 'currency', 'dimension', 'datetime')]
     obs.append(Ob('O1.9-composed', 'sx', 'harness.compose:h_compose', twin='harness.compose:t_compose', slices=cs, timeout=max(t, 300),
                   descr='API level, all real regexes: queries assembled from pools (pad x prefix x body x tail, incl. dialing prefixes, currency prefixes with a gap, a case-expanding '
-                        'code point, CJK and full-width forms) through 12 recognisers: 0 <= start <= end < len, text = normalised slice; entities pairwise disjoint',
-                  bounds='9 pads x 3..7 prefixes x 4..9 bodies x 7 tails per recogniser (about 23 000 queries), enumerated through the solver; en-us',
+                        'code point, CJK and full-width forms, leading blanks) through 12 English recognisers and 5 zh-cn ones (the CJK extractors): 0 <= start <= end < len, text = normalised slice; '
+                        'entities pairwise disjoint. Queries in which the Chinese merged extractor widened a result by a modifier are the region of F37 (attributed by a monitor); overlaps of the zh-cn '
+                        'unit models across their two extractors are attributed to F36',
+                  bounds='10 pads x 3..7 prefixes x 4..10 bodies x 7 tails per recogniser (about 32 000 queries), enumerated through the solver; en-us and zh-cn',
                   encodes=['recognizers_sequence.sequence.extractors:BasePhoneNumberExtractor.extract', 'recognizers_sequence.sequence.extractors:SequenceExtractor.extract',
                            'recognizers_number_with_unit.number_with_unit.extractors:NumberWithUnitExtractor.extract', 'recognizers_date_time.date_time.base_merged:BaseMergedExtractor.extract',
                            'recognizers_number.number.extractors:BaseNumberExtractor.extract', 'recognizers_text.utilities:QueryProcessor.preprocess'],
